@@ -1153,7 +1153,8 @@ class QueryBuilder(Selectable, Term):  # type:ignore[misc]
 
         elif 0 < len(self._groupbys) and isinstance(self._groupbys[-1], Rollup):
             # If a rollup was added last, then append the new terms to the previous rollup
-            self._groupbys[-1].args += terms
+            # extend a copy: the Rollup object is shared with the query this one was derived from
+            self._groupbys[-1] = Rollup(*self._groupbys[-1].args, *terms)
 
         else:
             self._groupbys.append(Rollup(*terms))  # type:ignore[arg-type]
